@@ -343,7 +343,7 @@ fn decode(t: &mut Tape) -> CosCase {
         let (main, suffix) = t.choose(SITES);
         let reg = format!("{}.{}", main, suffix);
         let mut host = reg.clone();
-        for _ in 0..[0usize, 1, 1, 2, 3, 4][t.pick(6)] {
+        for _ in 0..[0usize, 1, 1, 2, 3, 4, 8][t.pick(7)] {
             host = format!("{}.{}", t.choose(&["www", "a", "b", "m", "deep"]), host);
         }
         pages.push(Page { host, reg, suffix: suffix.to_string() });
